@@ -55,6 +55,14 @@ class Diverged(Exception):
   """The control loop did not become quiet within the step budget."""
 
 
+class ChannelLost(Exception):
+  """The controller gave up an OpenFlow connection (code under test)."""
+
+
+class HandshakeFailed(Exception):
+  """A switch and the controller did not get to ConnectionUp (code under test)."""
+
+
 # --------------------------------------------------------------------------
 # frames (struct only)
 
@@ -274,13 +282,16 @@ class NetSim(object):
   def _connect(self):
     for s, n in self.nodes.items():
       n.con = of_01.Connection(n.sock)
-    self._pump()
+    try:
+      self._pump()
+    except (ChannelLost, Diverged, rb.ParseError) as e:
+      raise HandshakeFailed(str(e))
     for s, n in self.nodes.items():
       if self.nexus.getConnection(n.dpid) is not n.con or n.con.connect_time is None:
-        raise Machinery("switch %d did not complete the handshake" % s)
+        raise HandshakeFailed("switch %d did not complete the handshake" % s)
       n.c2s, n.s2c = [], []
     if self.emits:
-      raise Machinery("frames emitted during the handshake")
+      raise HandshakeFailed("frames emitted during the handshake")
 
   # -- the pump
   def _pump(self):
@@ -301,7 +312,7 @@ class NetSim(object):
           n.sock.inq.extend(_chunks(data, self.seg, self._segstate))
           while n.sock.inq:
             if n.con.read() is False:
-              raise Machinery("controller dropped the connection of switch %d" % s)
+              raise ChannelLost("controller dropped the connection of switch %d" % s)
           moved = True
       if not moved:
         break
@@ -322,6 +333,24 @@ class NetSim(object):
 
   def table(self, s):
     return list(self.nodes[s].sw.table.entries)
+
+  def table_wire(self, s):
+    """The switch's flow table as a management station sees it: an OFPST_FLOW
+    request pushed into the switch's OpenFlow connection, the reply taken from
+    its send buffer (not forwarded to the controller) and decoded by
+    harness/rawbytes.py.  Returns the list of flow dicts."""
+    n = self.nodes[s]
+    if n.worker.send_buf or n.sock.out:
+      raise Machinery("table_wire: channel of switch %d not quiet" % s)
+    req = rb.stats_request(rb.ST_FLOW, rb.flow_stats_request_body(), xid=0x7e57)
+    n.worker._push_receive_data(req)
+    data, n.worker.send_buf = n.worker.send_buf, b""
+    msgs = rb.parse_stream(data)
+    if len(msgs) != 1 or msgs[0]["type"] != rb.STATS_REPLY or msgs[0].get("stype") != rb.ST_FLOW \
+        or msgs[0]["xid"] != 0x7e57:
+      raise Machinery("table_wire: unexpected answer to the flow statistics request: %r"
+                      % [(m["name"], m.get("stype")) for m in msgs])
+    return msgs[0]["flows"]
 
   def mac_to_port(self, s):
     b = self.brains.get(self.nodes[s].dpid)
